@@ -145,8 +145,8 @@ def inverse_pairs(ctx, fl, xs):
 
 def run(ctx):
     fl = import_library()
-    m = ctx.scale(10, 16)
-    nrand = ctx.scale(5000, 500_000)
+    m = ctx.scale(10, 18)
+    nrand = ctx.scale(5000, 2_000_000)
     ctx.rule = (
         f"every Hedge.hedge call observed: element compared with the scalar formula (1e-15); relations checked over the recorded table. "
         f"Workload: exhaustive dyadic grid k/2^{m}, 0.5 and its ±1..3 ulp neighbours, random doubles, float/0-d/1-D/2-D operands. "
